@@ -171,7 +171,7 @@ func VerifC12DMLSetup() {
 // run (thorough: plus one preemption).
 func VerifC12ParallelDML() {
 	si := verifChoice("statement", len(verifC12DMLSrc))
-	n := verifBound(3, 4)
+	n := 3
 	keys := make([]int64, n)
 	for i := range keys {
 		keys[i] = int64(verifChoice("k", 2))
